@@ -26,10 +26,9 @@ Qed.
 Lemma flat_canon : forall d n, ~ In d n -> canon_first d n = parse_mailbox n.
 Proof.
   intros d n H. unfold canon_first, parse_mailbox. rewrite first_comp_nodelim_whole; auto.
-  destruct (mb_eqfold n INBOX); auto.
 Qed.
 
-Lemma in_rev_last : forall (d : N) n c t, rev n = c :: t -> In c n.
+Lemma in_rev_last : forall (d : N) (n : name) c t, rev n = c :: t -> In c n.
 Proof. intros d n c t E. apply in_rev. rewrite E. left. auto. Qed.
 
 Lemma flat_name_rules : forall d n, ~ In d n ->
